@@ -22,6 +22,8 @@ Step(e) ==
     [] e.a = "Failed"   -> Failed(e.s, e.d)
     [] e.a = "FetchFailed" -> FetchFailed(e.s, e.d)
     [] e.a = "Notice" -> Notice(e.s, e.d, e.k)
+    [] e.a = "FailedAgain" -> FailedAgain(e.s, e.d)
+    [] e.a = "UploadedAgain" -> UploadedAgain(e.s, e.d)
     [] OTHER -> FALSE
 TInit == Init /\ tid \in 1..Len(Traces) /\ l = 1 /\ mode = Traces[tid].mode /\ hostEarly = Traces[tid].he
 TNext ==
